@@ -370,10 +370,16 @@ func (c *checker) proofBytes(t txTarget, i int, raw []byte, stream uint64) {
 // ---- state root from the metadata transaction -----------------------------
 
 func synthMetaTx(rng *rand.Rand, root hash.Hash) []byte {
+	raw, _ := synthMetaTxTyped(rng, root)
+	return raw
+}
+
+// synthMetaTxTyped also returns the signed transaction the bytes encode.
+func synthMetaTxTyped(rng *rand.Rand, root hash.Hash) ([]byte, *transaction.SignedTransaction) {
 	tx := consensusAPI.NewBlockMetadataTx(&consensusAPI.BlockMetadata{StateRoot: root, EventsRoot: rbytes(rng, 32)})
 	st := transaction.SignedTransaction{Signed: signature.Signed{Blob: cbor.Marshal(tx)}}
 	copy(st.Signature.Signature[:], rbytes(rng, 64))
-	return cbor.Marshal(st)
+	return cbor.Marshal(st), &st
 }
 
 func (c *checker) phaseStateRoot() {
